@@ -271,8 +271,12 @@ func (q *Query) Search(from Point) []Point {
 			st2 := n.st
 			if isIf {
 				want := si == 0
-				if q.Assume != nil {
-					if val, ok := q.Assume(ifi.Cond); ok && val != want {
+				pc, known, kval := pathCond(ifi, n.pred)
+				if known && kval != want {
+					continue
+				}
+				if q.Assume != nil && !known {
+					if val, ok := q.Assume(pc); ok && val != want {
 						continue
 					}
 				}
@@ -289,7 +293,7 @@ func (q *Query) Search(from Point) []Point {
 							continue
 						}
 					}
-					if x, c, eq, ok := CondAtom(ifi.Cond); ok {
+					if x, c, eq, ok := CondAtom(pc); ok && !known {
 						k := ValueKey(x)
 						var enumAll []string
 						if !(eq == want) { // learning a disequality
@@ -360,7 +364,7 @@ func ValueKey(v ssa.Value) string {
 func Returns(f *ssa.Function) []*ssa.Return {
 	var out []*ssa.Return
 	for _, b := range f.Blocks {
-		if len(b.Instrs) == 0 {
+		if len(b.Instrs) == 0 || b == f.Recover {
 			continue
 		}
 		if r, ok := b.Instrs[len(b.Instrs)-1].(*ssa.Return); ok {
@@ -444,7 +448,7 @@ func IsErrorReturn(r *ssa.Return) bool {
 	if ei < 0 {
 		return false
 	}
-	v := r.Results[ei]
+	v := unspill(r, r.Results[ei])
 	if !mayBeNil(v, map[ssa.Value]bool{}) {
 		return true
 	}
@@ -506,6 +510,32 @@ func EdgeCond(b *ssa.BasicBlock, succ int) (cond ssa.Value, onTrue bool) {
 	ifi, ok := b.Instrs[len(b.Instrs)-1].(*ssa.If)
 	if !ok {
 		return nil, false
+	}
+	// a short-circuit phi: on the true edge of `a && b` the last conjunct
+	// holds, on the false edge of `a || b` the last disjunct does not
+	if phi, isPhi := ifi.Cond.(*ssa.Phi); isPhi && phi.Block() == b {
+		var last ssa.Value
+		allConst := func(want string) bool {
+			ok := true
+			n := 0
+			for _, e := range phi.Edges {
+				if k, isC := e.(*ssa.Const); isC && k.Value != nil {
+					if k.Value.ExactString() != want {
+						ok = false
+					}
+				} else {
+					n++
+					last = e
+				}
+			}
+			return ok && n == 1
+		}
+		if succ == 0 && allConst("false") {
+			return last, true
+		}
+		if succ == 1 && allConst("true") {
+			return last, false
+		}
 	}
 	return ifi.Cond, succ == 0
 }
@@ -625,4 +655,60 @@ func killFacts(s *factState, in ssa.Instruction) *factState {
 		}
 	}
 	return n
+}
+
+// unspill looks through the result cell go/ssa introduces in functions with
+// defers: `*cell = v; rundefers; t = *cell; return t`.
+func unspill(r *ssa.Return, v ssa.Value) ssa.Value {
+	u, ok := v.(*ssa.UnOp)
+	if !ok || u.Op != token.MUL {
+		return v
+	}
+	al, ok := u.X.(*ssa.Alloc)
+	if !ok {
+		return v
+	}
+	var last ssa.Value
+	for _, in := range r.Block().Instrs {
+		if st, ok := in.(*ssa.Store); ok && st.Addr == ssa.Value(al) {
+			last = st.Val
+		}
+		if in == ssa.Instruction(u) {
+			break
+		}
+	}
+	if last != nil {
+		return last
+	}
+	return v
+}
+
+// ReturnValue returns result #i of a return, looking through defer spills.
+func ReturnValue(r *ssa.Return, i int) ssa.Value { return unspill(r, r.Results[i]) }
+
+// pathCond evaluates the condition of an If for a path that arrived from
+// pred: a short-circuit phi (a && b, a || b used as a value) is resolved to the
+// incoming edge's value.  known=true when that value is a boolean constant.
+func pathCond(ifi *ssa.If, pred *ssa.BasicBlock) (cond ssa.Value, known bool, val bool) {
+	cond = ifi.Cond
+	for depth := 0; depth < 4; depth++ {
+		phi, ok := cond.(*ssa.Phi)
+		if !ok || phi.Block() != ifi.Block() || pred == nil {
+			return cond, false, false
+		}
+		var e ssa.Value
+		for i, p := range phi.Block().Preds {
+			if p == pred {
+				e = phi.Edges[i]
+			}
+		}
+		if e == nil {
+			return cond, false, false
+		}
+		if k, ok := e.(*ssa.Const); ok && k.Value != nil {
+			return cond, true, k.Value.ExactString() == "true"
+		}
+		cond = e
+	}
+	return cond, false, false
 }
